@@ -7,3 +7,138 @@ pub mod fp {
     pub use crate::fp::verif_hooks::*;
     pub use crate::fp::{FieldOps, FieldParameters};
 }
+
+/// Public wrappers around the crate-private NTT routines.
+pub mod ntt {
+    use crate::field::NttFriendlyFieldElement;
+    pub use crate::ntt::NttError;
+
+    /// See `crate::ntt::ntt`.
+    pub fn ntt<F: NttFriendlyFieldElement>(
+        outp: &mut [F],
+        inp: &[F],
+        size: usize,
+    ) -> Result<(), NttError> {
+        crate::ntt::ntt(outp, inp, size)
+    }
+
+    /// See `crate::ntt::ntt_set_s`.
+    pub fn ntt_set_s<F: NttFriendlyFieldElement>(
+        outp: &mut [F],
+        inp: &[F],
+        size: usize,
+    ) -> Result<(), NttError> {
+        crate::ntt::ntt_set_s(outp, inp, size)
+    }
+
+    /// See `crate::ntt::ntt_inv`.
+    pub fn ntt_inv<F: NttFriendlyFieldElement>(
+        outp: &mut [F],
+        inp: &[F],
+        size: usize,
+    ) -> Result<(), NttError> {
+        crate::ntt::ntt_inv(outp, inp, size)
+    }
+
+    /// See `crate::ntt::get_ntt`.
+    pub fn get_ntt<F: NttFriendlyFieldElement>(
+        input: &[F],
+        size: usize,
+    ) -> Result<Vec<F>, NttError> {
+        crate::ntt::get_ntt(input, size)
+    }
+
+    /// See `crate::ntt::get_ntt_inv`.
+    pub fn get_ntt_inv<F: NttFriendlyFieldElement>(
+        input: &[F],
+        size: usize,
+    ) -> Result<Vec<F>, NttError> {
+        crate::ntt::get_ntt_inv(input, size)
+    }
+
+    /// See `crate::ntt::ntt_inv_finish`.
+    pub fn ntt_inv_finish<F: NttFriendlyFieldElement>(outp: &mut [F], size: usize, size_inv: F) {
+        crate::ntt::ntt_inv_finish(outp, size, size_inv)
+    }
+}
+
+/// Public wrappers around the crate-private polynomial routines.
+pub mod polynomial {
+    use crate::field::NttFriendlyFieldElement;
+    use crate::ntt::NttError;
+
+    /// See `crate::polynomial::poly_mul_lagrange`.
+    pub fn poly_mul_lagrange<F: NttFriendlyFieldElement>(
+        output: &mut [F],
+        p: &[F],
+        q: &[F],
+    ) -> Result<(), NttError> {
+        crate::polynomial::poly_mul_lagrange(output, p, q)
+    }
+
+    /// See `crate::polynomial::poly_eval_lagrange_batched`.
+    pub fn poly_eval_lagrange_batched<F: NttFriendlyFieldElement, P: AsRef<[F]>>(
+        polynomials: &[P],
+        x: F,
+    ) -> Vec<F> {
+        crate::polynomial::poly_eval_lagrange_batched(polynomials, x)
+    }
+
+    /// See `crate::polynomial::nth_root_powers`.
+    pub fn nth_root_powers<F: NttFriendlyFieldElement>(n: usize) -> Vec<F> {
+        crate::polynomial::nth_root_powers(n)
+    }
+
+    /// See `crate::polynomial::extend_values_to_power_of_2`.
+    pub fn extend_values_to_power_of_2<F: NttFriendlyFieldElement>(
+        polynomial: &mut [F],
+        num_values: usize,
+    ) {
+        crate::polynomial::extend_values_to_power_of_2(polynomial, num_values)
+    }
+
+    /// See `crate::polynomial::double_evaluations`.
+    pub fn double_evaluations<F: NttFriendlyFieldElement>(
+        output: &mut [F],
+        evaluations: &[F],
+    ) -> Result<(), NttError> {
+        crate::polynomial::double_evaluations(output, evaluations)
+    }
+
+    /// See `crate::polynomial::get_double_evaluations`.
+    pub fn get_double_evaluations<F: NttFriendlyFieldElement>(
+        evaluations: &[F],
+    ) -> Result<Vec<F>, NttError> {
+        crate::polynomial::get_double_evaluations(evaluations)
+    }
+
+    /// See `crate::polynomial::poly_range_check`.
+    pub fn poly_range_check<F: NttFriendlyFieldElement>(start: usize, end: usize) -> Vec<F> {
+        crate::polynomial::poly_range_check(start, end)
+    }
+
+    /// See `crate::polynomial::poly_eval_monomial`.
+    pub fn poly_eval_monomial<F: NttFriendlyFieldElement>(poly: &[F], eval_at: F) -> F {
+        crate::polynomial::poly_eval_monomial(poly, eval_at)
+    }
+
+    /// See `crate::polynomial::poly_deg`.
+    pub fn poly_deg<F: NttFriendlyFieldElement>(p: &[F]) -> usize {
+        crate::polynomial::poly_deg(p)
+    }
+
+    /// See `crate::polynomial::poly_mul_monomial`.
+    pub fn poly_mul_monomial<F: NttFriendlyFieldElement>(p: &[F], q: &[F]) -> Vec<F> {
+        crate::polynomial::poly_mul_monomial(p, q)
+    }
+
+    /// See `crate::polynomial::poly_interpret_eval`.
+    #[cfg(all(feature = "crypto-dependencies", feature = "experimental"))]
+    pub fn poly_interpret_eval<F: NttFriendlyFieldElement>(
+        points: &[F],
+        eval_at: F,
+        tmp_coeffs: &mut [F],
+    ) -> F {
+        crate::polynomial::poly_interpret_eval(points, eval_at, tmp_coeffs)
+    }
+}
